@@ -98,6 +98,7 @@ def san_env(leaks):
     env['ASAN_OPTIONS'] = 'detect_leaks=%d:abort_on_error=0:halt_on_error=1:allocator_may_return_null=1:detect_stack_use_after_return=0:symbolize=1:handle_segv=1:handle_sigbus=1' % (1 if leaks else 0)
     env['UBSAN_OPTIONS'] = 'print_stacktrace=1:halt_on_error=1'
     env['LSAN_OPTIONS'] = 'exitcode=23'
+    env['H_VERBOSE'] = '1'            # h_arena sends stderr (the sanitizer reports) to /dev/null otherwise
     return env
 
 
